@@ -13,6 +13,7 @@
 #include <fstream>
 #include <sstream>
 #include <unistd.h>
+#include <ctime>
 #include <clocale>
 #include <cfenv>
 #include <sqlite3.h>
@@ -150,6 +151,7 @@ static long g_evals = 0, g_sample_seen = 0;
 static std::string g_cur, g_out = ".", g_wid = "0", g_stats, g_engine, g_tier = "quick";
 static long g_cases = 0, g_size = 0;
 static std::string g_failmsg; static bool g_failed = false;
+static long g_shrink_execs = 0; static time_t g_first_fail = 0;
 static uint64_t g_lcg = 88172645463325252ULL;
 
 void label(const std::string &l) { g_labels[l]++; }
@@ -200,7 +202,13 @@ void begin_case(const CaseFile &c) { g_cur = c.serialize(); g_evals++; alarm(g_w
 void record_fail(const CaseFile &c, const std::string &msg) {
     CaseFile d = c; d.set("_engine", g_engine); d.set("_msg", msg);
     d.save(g_out + "/fail-" + g_engine + "-" + g_wid + ".case");
-    g_failmsg = msg; g_failed = true;
+    g_failmsg = msg; if (!g_failed) g_first_fail = time(nullptr); g_failed = true;
+}
+bool shrink_exhausted() {
+    if (!g_failed) return false;
+    g_shrink_execs++;
+    long maxe = getenv("VERIF_SHRINK_EXECS") ? atol(getenv("VERIF_SHRINK_EXECS")) : 400;
+    return g_shrink_execs > maxe || time(nullptr) - g_first_fail > 90;
 }
 static void death_cb() {
     static int once = 0; if (once++) return;
